@@ -232,6 +232,11 @@ func (w *world) do(op Op) callResult {
 		case "clunk":
 			r.err = s.Clunk(ctx, fid)
 		case "fstat":
+			if op.Count == 1 {
+				// the fid itself, not a clone of it
+				r.dir, r.err = s.Stat(ctx, fid)
+				return
+			}
 			if _, r.err = s.Walk(ctx, fid, tmpFid); r.err != nil {
 				return
 			}
